@@ -219,7 +219,7 @@ def alias_programs(ctx):
     return out
 
 
-def name_program(name, idx, assoc=True):
+def name_program(name, idx, assoc=True, plain=False):
     """A generic contract whose type parameter, and (assoc) an interface whose associated type, is called `name`."""
     import random
     rng = random.Random(idx)
@@ -244,6 +244,8 @@ def name_program(name, idx, assoc=True):
     h(c, "query", "load", [("key", T.STRING)], resp=g)
     # sudo mentions only a *path* ending in the parameter's name: its message must stay non-generic
     named = T.Ty(f"svmon::named::{name}", lambda r, d: {"v": r.randrange(1000)}, "struct")
+    if plain:
+        named = T.PT   # (spelling twins: no type whose own name follows the parameter's)
     h(c, "sudo", "force", [("value", T.U64)])
     h(c, "sudo", "note", [("tagged", named), ("also", T.option(named))])
     h(c, "migrate", "migrate", [("value", T.tup(g, T.U32))])
@@ -365,6 +367,9 @@ def name_programs(ctx):
             q["_render_kw"] = {"contract_ident": "Holder"}   # the contract type itself cannot be called like its parameter
             q["parts"][0]["variant"] = "Holder"
         out.setdefault(f"nm{k % 8:02d}", []).append(q)
+    # the same program under two spellings of its parameter (everything the program publishes must be the same)
+    out.setdefault("nm00", []).append(name_program("Param", 900, assoc=False, plain=True))
+    out.setdefault("nm00", []).append(name_program("ParamT", 900, assoc=False, plain=True))
     for k, (n1, n2) in enumerate([("Msg", "Data"), ("Z", "A"), ("Query", "Param"), ("T", "E"), ("Item", "Custom"), ("Value", "Key"), ("Error", "Data")]):
         out.setdefault(f"nm{k % 8:02d}", []).append(pair_program(n1, n2, k))
     return out
